@@ -284,6 +284,17 @@ def damage_specs(cls: str, raw: bytes, nsib: int, flips: str, k: int) -> List[Tu
 # ---------------------------------------------------------------------------
 # the table under test
 # ---------------------------------------------------------------------------
+def _fixed_len_name(name: str, total: int = 80) -> str:
+    """Directory name padded so that the table root has the same length in every process: the root is stored
+    in the metadata json ("location"), and its length would otherwise move every offset-based damage."""
+    from dsmc.report import scratch_root
+
+    pad = total - len(os.path.join(scratch_root(), name))
+    if pad < 0:
+        raise HarnessError("scratch path too long for a fixed-length table root")
+    return name + "_" * pad
+
+
 class Ctx:
     """The 2-snapshot table on one backend, a handle opened before any damage, and the
     harness-side (plain os / dict) access used to plant damage."""
@@ -299,7 +310,7 @@ class Ctx:
 
             install_local_seams()  # file mtimes follow the virtual clock
             use_local()
-            self.root = fresh_dir(f"c14-{tag}")
+            self.root = fresh_dir(_fixed_len_name(f"c14-{tag}"))
             self.location = self.root
             self.view: Any = reader.LocalView(self.root)
         else:
